@@ -94,7 +94,7 @@ impl Check for C06 {
         "C06"
     }
     fn rule(&self) -> String {
-        "in-process: generated progGen programs and 13 unbounded loop/recursion templates on trampolined call paths (plain, mutual, method, constructor, async, arrow, callee loops, generators, try/finally, labels), stepped by a host with a seeded step budget and call-depth limit; per step the H3 instruction counter must advance by at most 1 unless a native re-entered the VM, a re-entering step must stay under a fixed bound, the budget must stop the run and a follow-up program must complete. process stratum: 10 allocation-size templates x 10 sizes up to 2^53 and 12 recursion call paths x depths {100,1000,10000,100000} x native stacks {256 KiB, 1 MiB, 8 MiB}, each in a worker process under a 4 GiB address-space cap: exit status is the observation. non-trivial = the watchdog (budget or depth limit) actually fired, or the case ran in a worker; distinct = distinct (program digest, budget) / (template, parameter, stack)".into()
+        "in-process: generated progGen programs and 13 unbounded loop/recursion templates on trampolined call paths (plain, mutual, method, constructor, async, arrow, callee loops, generators, try/finally, labels), stepped by a host with a seeded step budget and call-depth limit; per step the H3 instruction counter must advance by at most 1 unless a native re-entered the VM, a re-entering step must stay under a fixed bound, the budget must stop the run and a follow-up program must complete. process stratum: 10 allocation-size templates x 10 sizes up to 2^53 and 12 recursion call paths x depths {100,1000,10000,100000} x native stacks {256 KiB, 1 MiB, 8 MiB}, each in a worker process under a 4 GiB address-space cap: exit status is the observation. non-trivial = the watchdog (budget or depth limit) actually fired, or the case ran in a worker; distinct = distinct (program digest, budget) / (template, parameter, stack). The in-process stratum also holds the native-argument sweep (about 340 call shapes x boundary arguments; catalogue 3: ill-behaved comparators on arrays of 21-64 elements, coercion hooks that write to their receiver, cyclic prototype chains, structuredClone of Map/Set graphs, promise adoption, catastrophic regular-expression backtracking) under automatic collection thresholds 1-100, run in worker processes with a CPU-time watchdog: 15 CPU seconds inside ONE step (heartbeat standing still) is a violation".into()
     }
     fn components(&self) -> Value {
         json!({"real": ["Interpreter::step / call_depth", "BytecodeVM trampoline", "natives that re-enter the VM", "allocation paths of Array/String builtins"],
